@@ -1,4 +1,5 @@
 import GdslModel.Lemmas.Di
+import GdslModel.Lemmas.Extra
 /-!
 # C08 — transpose() searches the edge-reversed graph
 In the model every traversal is a function of the adjacency it iterates. A configuration with
@@ -37,5 +38,19 @@ theorem Forward.ignores_inbound (s s' : Store K E) (h : ∀ k, (s.get k).out = (
     orderEdges (outAdj s) acc post root fuel = orderEdges (outAdj s') acc post root fuel := by
   have : outAdj s = outAdj s' := funext (fun k => h k)
   rw [this]; exact ⟨rfl, rfl⟩
+
+/-- with mirrored lists, what a transposed traversal reaches from `a` is exactly what reaches `a`
+    along the stored edges: reachability in the incoming adjacency is reachability against the edge direction -/
+theorem Transpose.reach_reverse (s : Store K E) (h : Mirror s) (a b : K) :
+    Reach (inAdj s) a b ↔ Reach (outAdj s) b a := by
+  constructor
+  · exact reach_reverse_of (fun u v e he => (mem_inn_iff_mem_out s h v u e).mp he)
+  · exact reach_reverse_of (fun u v e he => (mem_inn_iff_mem_out s h u v e).mpr he)
+
+/-- the same with a filter: a transposed search hands the stored edge `u → v : e` to the filter as
+    `(v, u, e)`, so it walks, backwards, the stored edges `u → v : e` with `acc v u e` -/
+theorem Transpose.reach_reverse_filter (s : Store K E) (h : Mirror s) (acc : K → K → E → Bool) (a b : K) :
+    Reach (accAdj (inAdj s) acc) a b ↔ Reach (accAdj (outAdj s) (fun u v e => acc v u e)) b a :=
+  reach_inn_iff s h acc a b
 
 end G
